@@ -53,6 +53,15 @@ def check_node(node, root, case, stats):
     for i in list(range(-n, n)):
         if key(node[i]) != got[i]:
             raise H.Violation('C04:indexing', case, 'node[%d] is %r, contents[%d] is %r' % (i, str(node[i])[:30], i, str(contents[i])[:30]))
+    for sl in (slice(None), slice(1, None), slice(None, -1), slice(-2, None), slice(1, 3), slice(None, None, 2), slice(0, n), slice(n, None),
+               slice(None, None, -1), slice(-1, 0, -2)):
+        try:
+            part = node[sl]
+        except Exception as e:  # noqa - slices are indexing too
+            raise H.Violation('C04:indexing', case, 'node[%r] raised %r' % (sl, e))
+        if [key(c) for c in part] != got[sl]:
+            raise H.Violation('C04:indexing', case, 'node[%r] gives %r, contents[%r] gives %r' % (
+                sl, [str(c)[:20] for c in part], sl, [str(c)[:20] for c in list(contents)[sl]]))
     for i in (n, -n - 1):
         try:
             node[i]
